@@ -32,6 +32,7 @@ use vh_common::*;
 
 const NV: usize = 4;
 const MAXV: u32 = 3;
+const FEE_DELAY: u64 = 2;
 
 fn big(d: Decimal) -> BigInt {
     BigInt::from_str(&d.attos().to_string()).unwrap()
@@ -57,6 +58,7 @@ struct VState {
     v: BigInt,
     u: BigInt,
     locked: BigInt,
+    req: Option<(u64, BigInt)>,
     ff: BigInt,
     registered: bool,
     prefix: i64, // 65536 = not in the index
@@ -112,7 +114,8 @@ impl World {
             .with_epoch_change_condition(EpochChangeCondition { min_round_count: 1, max_round_count: 50, target_duration_millis: 0 })
             .with_total_emission_xrd_per_epoch(emission)
             .with_min_validator_reliability(minrel)
-            .with_num_unstake_epochs(1);
+            .with_num_unstake_epochs(1)
+            .with_num_fee_increase_delay_epochs(FEE_DELAY);
         let genesis_validators: Vec<GenesisValidator> = keys
             .iter()
             .enumerate()
@@ -152,6 +155,45 @@ impl World {
         let mut w = World { ledger, staker_pk, staker, validators: vec![], keys, total_emission: big(emission), minrel: big(minrel) };
         w.validators = w.find_validators();
         w
+    }
+
+    /// the consensus manager's sorted index as stored: (prefix, validator, stake) in database order
+    fn index(&self) -> Vec<(i64, usize, BigInt)> {
+        let reader = SystemDatabaseReader::new(self.ledger.substate_db());
+        let it = reader
+            .collection_iter(
+                CONSENSUS_MANAGER.as_node_id(),
+                ModuleId::Main,
+                ConsensusManagerCollection::RegisteredValidatorByStakeSortedIndex.collection_index(),
+            )
+            .unwrap();
+        let mut out = Vec::new();
+        for (key, value) in it {
+            let (prefix, addr_bytes) = match key {
+                SubstateKey::Sorted((p, k)) => ((((p[0] as i64) << 8) | p[1] as i64), k),
+                other => panic!("unexpected index key {:?}", other),
+            };
+            let addr: ComponentAddress = scrypto_decode(&addr_bytes).unwrap();
+            let entry: ConsensusManagerRegisteredValidatorByStakeEntryPayload = scrypto_decode(&value).unwrap();
+            let v = entry.fully_update_and_into_latest_version();
+            let vi = self.validators.iter().position(|a| *a == addr).expect("validator of the index entry");
+            out.push((prefix, vi, big(v.stake)));
+        }
+        out
+    }
+    /// runs a manifest as the owner of validator i (proof of its owner badge)
+    fn exec_as_owner(&mut self, i: usize, method: &str, args: ManifestValue) -> TransactionReceipt {
+        let owner = ComponentAddress::preallocated_account_from_public_key(&self.keys[i]);
+        let m = ManifestBuilder::new()
+            .lock_fee_from_faucet()
+            .create_proof_from_account_of_non_fungibles(
+                owner,
+                VALIDATOR_OWNER_BADGE,
+                [NonFungibleLocalId::bytes(self.validators[i].as_node_id().0).unwrap()],
+            )
+            .call_method_raw(self.validators[i], method, args)
+            .build();
+        self.ledger.execute_manifest(m, vec![NonFungibleGlobalId::from_public_key(&self.keys[i])])
     }
 
     /// the staker's claim NFTs of validator i: (id, claim amount, claim epoch)
@@ -199,6 +241,7 @@ impl World {
             v,
             u,
             locked,
+            req: s.validator_fee_change_request.as_ref().map(|r| (r.epoch_effective.number(), big(r.new_fee_factor))),
             ff: big(s.validator_fee_factor),
             registered: s.is_registered,
             prefix,
@@ -242,6 +285,12 @@ impl World {
     }
 }
 
+fn req_coq(r: &Option<(u64, BigInt)>) -> String {
+    match r {
+        Some((e, f)) => format!("(Some ({}, {}))", e, z(f)),
+        None => "None".to_string(),
+    }
+}
 fn prefix_and_reg(s: &VState) -> String {
     format!("{} {}", coq_bool(s.registered), s.prefix)
 }
@@ -255,6 +304,8 @@ enum Plan {
     UnstakeAll(usize),
     UnstakeUnits(usize, BigInt),
     Claim(usize),
+    Register(usize, bool),
+    UpdateFee(usize, Decimal),
     Epoch(u64, Vec<u8>, u8), // rounds, gap leaders, current leader (indices into the active set)
 }
 
@@ -288,14 +339,95 @@ impl Runner {
         let vs: Vec<VState> = (0..NV).map(|i| r.w.vstate(i)).collect();
         let (proposer, vault) = r.w.rewards_state();
         let epoch = r.w.ledger.get_current_epoch().number();
+        let pre = coq_list(vs.iter().map(|s| s.prefix.to_string()));
+        let reqs = coq_list(vs.iter().map(|s| req_coq(&s.req)));
         r.obs.push(format!(
-            "OInit {} {} {} {}",
+            "OInit {} {} {} {} {} {}",
             coq_list(vs.iter().map(|s| format!("({}, {}, {}, {}, {}, {})", z(&s.v), z(&s.u), z(&s.pending), z(&s.locked), z(&s.ff), coq_bool(s.registered)))),
             z(&vault),
             coq_list(proposer.iter().map(|(k, v)| format!("({}, {})", k, z(v)))),
-            epoch
+            epoch,
+            pre,
+            reqs
         ));
+        r.push_index();
         r
+    }
+    /// the index as stored in the database, observed after every operation
+    fn push_index(&mut self) {
+        let idx = self.w.index();
+        self.obs.push(format!("OIdx {}", coq_list(idx.iter().map(|(p, i, st)| format!("({}, {}, {})", p, i, z(st))))));
+        // direct oracle: exactly the registered validators with non-zero stake, each with its current
+        // stake and the prefix of that stake
+        for i in 0..NV {
+            let s = self.w.vstate(i);
+            let entries: Vec<_> = idx.iter().filter(|e| e.1 == i).collect();
+            let should = s.registered && s.v.is_positive();
+            let bucket = BigInt::from(10u64).pow(23);
+            let q = &s.v / &bucket;
+            let want_prefix = 65535i64 - if q > BigInt::from(65535u32) { 65535 } else { q.to_string().parse::<i64>().unwrap() };
+            let ok = if should { entries.len() == 1 && entries[0].2 == s.v && entries[0].0 == want_prefix && s.prefix == want_prefix } else { entries.is_empty() && s.prefix == 65536 };
+            if !ok {
+                self.fail(format!("index entry of validator {} wrong: registered {} stake {} entries {:?} sorted_key prefix {}", i, s.registered, s.v, entries, s.prefix));
+            }
+        }
+    }
+
+    fn register(&mut self, vi: usize, b: bool) {
+        self.last_stake = None;
+        let before = self.w.vstate(vi);
+        let receipt = self.w.exec_as_owner(vi, if b { VALIDATOR_REGISTER_IDENT } else { VALIDATOR_UNREGISTER_IDENT }, manifest_args!().into());
+        if !receipt.is_commit_success() {
+            self.fail(format!("register({}) failed: {:?}", b, receipt.expect_commit_ignore_outcome().outcome));
+            self.dead = true;
+            return;
+        }
+        let after = self.w.vstate(vi);
+        self.cnt(match (before.registered, b, before.v.is_positive()) {
+            (r, b2, _) if r == b2 => "reg_no_update",
+            (_, true, true) => "reg_register_with_stake",
+            (_, true, false) => "reg_register_with_zero_stake",
+            (_, false, true) => "reg_unregister_with_stake",
+            (_, false, false) => "reg_unregister_with_zero_stake",
+        });
+        if after.registered != b || after.v != before.v || after.u != before.u {
+            self.fail("register / unregister changed something else".to_string());
+        }
+        self.obs.push(format!("OReg {} {}", vi, coq_bool(b)));
+        self.push_index();
+    }
+
+    fn update_fee(&mut self, vi: usize, ff: BigInt) {
+        self.last_stake = None;
+        let before = self.w.vstate(vi);
+        let cur = self.w.ledger.get_current_epoch().number();
+        let receipt = self.w.exec_as_owner(vi, VALIDATOR_UPDATE_FEE_IDENT, manifest_args!(dec(&ff)).into());
+        let ok = receipt.is_commit_success();
+        let after = self.w.vstate(vi);
+        let d18 = BigInt::from(10u64).pow(18);
+        let valid = !ff.is_negative() && ff <= d18;
+        if ok != valid {
+            self.fail(format!("update_fee({}) success = {}", ff, ok));
+        }
+        if ok {
+            let promoted = matches!(&before.req, Some((ee, _)) if *ee <= cur);
+            if promoted {
+                self.cnt("fee_update_promoting_a_pending_request");
+            }
+            let stored = match &before.req { Some((ee, nf)) if *ee <= cur => nf.clone(), _ => before.ff.clone() };
+            let want_ee = if ff > stored { cur + FEE_DELAY } else { cur + 1 };
+            self.cnt(if ff > stored { "fee_increase" } else if ff == stored { "fee_equal" } else { "fee_decrease" });
+            if after.req != Some((want_ee, ff.clone())) || after.ff != stored {
+                self.fail(format!("update_fee({}) at epoch {}: request {:?}, stored {} (expected effective epoch {}, stored {})", ff, cur, after.req, after.ff, want_ee, stored));
+            }
+        } else {
+            self.cnt("fee_invalid");
+            if after.req != before.req || after.ff != before.ff {
+                self.fail("failed update_fee changed the validator".to_string());
+            }
+        }
+        self.obs.push(format!("OFee {} {} {} {} {} {}", vi, z(&ff), FEE_DELAY, coq_bool(ok), z(&after.ff), req_coq(&after.req)));
+        self.push_index();
     }
     fn cnt(&mut self, k: &str) {
         *self.counts.entry(k.to_string()).or_insert(0) += 1;
@@ -374,6 +506,7 @@ impl Runner {
             }
         }
         self.obs.push(format!("OStake {} {} {} {} ({}, {}, {}) {}", vi, z(&x), z(&before.v), z(&before.u), z(&units), z(&after.v), z(&after.u), prefix_and_reg(&after)));
+        self.push_index();
         self.last_stake = if units.is_positive() { Some((vi, x, units)) } else { None };
     }
 
@@ -435,6 +568,7 @@ impl Runner {
             "OUnstake {} {} 1 {} {} ({}, {}, {}) {} {}",
             vi, z(&units), z(&before.v), z(&before.u), z(&claim), z(&after.v), z(&after.u), prefix_and_reg(&after), z(&after.pending)
         ));
+        self.push_index();
     }
 
     fn claim(&mut self, vi: usize, pick: usize) {
@@ -481,6 +615,7 @@ impl Runner {
             self.fail("claim changed the stake vault or the unit supply".to_string());
         }
         self.obs.push(format!("OClaim {} {} {} {} {} {} {}", vi, z(&amt), ce, cur, coq_bool(ok), z(&got), z(&after.pending)));
+        self.push_index();
     }
 
     fn epoch(&mut self, rounds: u64, gaps_in: Vec<u8>, leader_in: u8) {
@@ -491,6 +626,9 @@ impl Runner {
         let n_active = active.len().max(1) as u8;
         let befores: Vec<VState> = (0..NV).map(|i| w.vstate(i)).collect();
         let (proposer, vault) = w.rewards_state();
+        let cur_epoch = w.ledger.get_current_epoch().number();
+        // the fee factor apply_emission uses for the concluded epoch
+        let eff_ff: Vec<BigInt> = befores.iter().map(|b| match &b.req { Some((ee, nf)) if *ee <= cur_epoch => nf.clone(), _ => b.ff.clone() }).collect();
         let cur_round = w.ledger.get_consensus_manager_state().round.number();
         let gaps: Vec<u8> = gaps_in.iter().map(|g| g % n_active).collect();
         let leader = leader_in % n_active;
@@ -644,7 +782,12 @@ impl Runner {
             if e.is_zero() {
                 cnts.push("emis_zero_emission_applied");
             }
-            let ff = &befores[*i].ff;
+            let ff = &eff_ff[*i];
+            if *ff != befores[*i].ff {
+                cnts.push("emission_with_effective_pending_fee_change");
+            } else if befores[*i].req.is_some() {
+                cnts.push("emission_with_pending_fee_change_not_yet_effective");
+            }
             cnts.push(if ff.is_zero() { "emis_fee_factor_zero" } else if *ff == d18 { "emis_fee_factor_one" } else { "emis_fee_factor_fraction" });
         }
         // index-scan order = order of the database sort keys: the u16 prefix, then the HASH-prefixed key bytes
@@ -667,7 +810,7 @@ impl Runner {
             format!("({}, {}, {}, {})", vi, z(st), made, missed)
         }));
         let vals_s = coq_list((0..NV).map(|i| {
-            format!("({}, ({}, {}, {}), ({}, {}), {})", i, z(&befores[i].v), z(&befores[i].u), z(&befores[i].ff), z(&afters[i].v), z(&afters[i].u), afters[i].prefix)
+            format!("({}, ({}, {}, {}), ({}, {}), {})", i, z(&befores[i].v), z(&befores[i].u), z(&eff_ff[i]), z(&afters[i].v), z(&afters[i].u), afters[i].prefix)
         }));
         let o = format!(
             "OEpoch {} {} {} {} {} {} {} {} {} {} {} {} {} {}",
@@ -687,6 +830,7 @@ impl Runner {
             epoch_after,
         );
         self.obs.push(o);
+        self.push_index();
         for c in cnts {
             self.cnt(c);
         }
@@ -726,10 +870,23 @@ impl Runner {
                 }
             };
             self.unstake(vi, units, from_stake);
-        } else if r < 64 {
+        } else if r < 62 {
             let vi = rng.usize_below(NV);
             let pick = rng.usize_below(8);
             self.claim(vi, pick);
+        } else if r < 66 {
+            let vi = rng.usize_below(NV);
+            let b = rng.chance(1, 2);
+            self.register(vi, b);
+        } else if r < 70 {
+            let vi = rng.usize_below(NV);
+            let ff = match rng.below(5) {
+                0 => BigInt::from(0u32),
+                1 => BigInt::from(10u64).pow(18),
+                2 => BigInt::from(10u64).pow(18) + BigInt::from(1u32),
+                _ => BigInt::from(rng.range(0, 1_000_000_000)) * BigInt::from(1_000_000_000u64),
+            };
+            self.update_fee(vi, ff);
         } else {
             let rounds = rng.range(1, 6);
             let gaps: Vec<u8> = (0..rounds - 1).map(|_| rng.below(8) as u8).collect();
@@ -803,6 +960,18 @@ fn boundary_scripts() -> Vec<Script> {
         ("equal_stakes_cutoff", vec![dec!(10), dec!(10), dec!(10), dec!(10)], vec![one, one, one, one], vec![true; NV], one, one, vec![
             Plan::Epoch(4, vec![0, 1, 2], 0), Plan::Epoch(1, vec![], 0), Plan::Stake(3, xrd(5)), Plan::Epoch(1, vec![], 0), Plan::Epoch(1, vec![], 1),
         ]),
+        // fee-factor changes: increase (effective after the delay), decrease / equal (next epoch), a second request
+        // before the first is effective, promotion of an effective request, invalid values at both ends;
+        // registration: unregister with stake (index entry removed), twice (no update), stake while unregistered,
+        // register again (entry created), stake falling to zero (entry removed), register with zero stake, stake again
+        ("fee_changes_and_registration", vec![dec!(40), dec!(30), dec!(20), dec!(10)], vec![dec!("0.5"), dec!("0.5"), one, zero], vec![true; NV], dec!(10), one, vec![
+            Plan::UnstakeAll(3), Plan::Register(3, false), Plan::Register(3, true), Plan::Stake(3, xrd(10)),
+            Plan::UpdateFee(0, dec!("0.9")), Plan::Epoch(1, vec![], 0), Plan::UpdateFee(0, dec!("0.95")), Plan::Epoch(1, vec![], 0), Plan::Epoch(1, vec![], 0),
+            Plan::Epoch(1, vec![], 0), Plan::UpdateFee(0, dec!("0.1")), Plan::Epoch(1, vec![], 0), Plan::Epoch(1, vec![], 0),
+            Plan::UpdateFee(1, dec!("1.000000000000000001")), Plan::UpdateFee(1, dec!("-0.000000000000000001")), Plan::UpdateFee(1, dec!("0.5")), Plan::UpdateFee(1, one), Plan::UpdateFee(1, zero),
+            Plan::Register(3, false), Plan::Register(3, false), Plan::Stake(3, xrd(50)), Plan::Epoch(1, vec![], 0), Plan::Register(3, true), Plan::Register(3, true),
+            Plan::UnstakeAll(2), Plan::Register(2, false), Plan::Register(2, true), Plan::Stake(2, xrd(1)), Plan::Epoch(1, vec![], 0),
+        ]),
         // an unregistered validator: stake / unstake keep it out of the index and of the set
         ("unregistered_validator", vec![dec!(10), dec!(20), dec!(30), dec!(400)], vec![one, one, one, dec!("0.5")], vec![true, true, true, false], one, one, vec![
             Plan::Stake(3, xrd(5)), Plan::UnstakeUnits(3, xrd(1)), Plan::Epoch(1, vec![], 0), Plan::Epoch(1, vec![], 0), Plan::Claim(3),
@@ -835,6 +1004,8 @@ fn run_script(index: usize, sc: Script) -> CaseResult {
             }
             Plan::UnstakeUnits(vi, u) => r.unstake(vi, u, None),
             Plan::Claim(vi) => r.claim(vi, 0),
+            Plan::Register(vi, b) => r.register(vi, b),
+            Plan::UpdateFee(vi, f) => r.update_fee(vi, big(f)),
             Plan::Epoch(rounds, gaps, leader) => r.epoch(rounds, gaps, leader),
         }
     }
@@ -927,6 +1098,9 @@ fn main() {
         "emis_validator_without_any_proposal", "emis_validator_missed_all_proposals", "emis_validator_perfect", "emis_validator_partly_reliable",
         "emis_reliability_exactly_at_minimum", "emis_reliability_below_minimum", "emis_reliability_above_minimum", "emis_zero_emission_applied",
         "emis_fee_factor_zero", "emis_fee_factor_one", "emis_fee_factor_fraction", "epochs_with_rewards", "epochs_with_emission",
+        "reg_no_update", "reg_register_with_stake", "reg_register_with_zero_stake", "reg_unregister_with_stake", "reg_unregister_with_zero_stake",
+        "fee_increase", "fee_decrease", "fee_equal", "fee_invalid", "fee_update_promoting_a_pending_request",
+        "emission_with_effective_pending_fee_change", "emission_with_pending_fee_change_not_yet_effective",
     ] {
         report.floor(&format!("bnd_{}", k), 1);
     }
